@@ -56,7 +56,7 @@ def run(ctx):
     exe, model = build(ctx)
     pr = ctx.proofs("c16", "C16Theorems.v")
     # correspondence
-    n = ctx.n(1500, 60000)
+    n = ctx.n(5000, 100000)
     rc, cases, e = sh2(limited(exe, ["corr", "-seed", ctx.seed, "-n", n]), timeout=3000)
     if rc != 0:
         raise common.CheckError("harness corr failed: " + e[-1000:])
@@ -82,7 +82,7 @@ def run(ctx):
     ctx.cov["samples"] += [l[:300] for l in lines[40:43]] + [l[:300] for l in lines[-3:]]
     ctx.log("correspondence: %d cases, %d mismatches, classes %s" % (len(lines), len(mism), classes))
     # search: the property itself on the implementation
-    ns = ctx.n(2500, 120000)
+    ns = ctx.n(60000, 1200000)
     rc, so, e = sh2(limited(exe, ["search", "-seed", ctx.seed, "-n", ns]), timeout=3000)
     if rc != 0:
         raise common.CheckError("harness search failed: " + e[-1000:])
@@ -102,7 +102,7 @@ def run(ctx):
             reported += 1
     ctx.log("search: %d failing signatures (%d not known)" % (len(fails), reported))
     # the built command line tools on hostile files
-    reported += run_tools(ctx, exe, ctx.n(60, 1500))
+    reported += run_tools(ctx, exe, ctx.n(200, 4000))
     if mism and not reported:
         by_id = {}
         for l in lines:
